@@ -188,6 +188,9 @@ class Interp:
         a = act
         while a is not None:
             if name in a.vars and not (a is not act and a.cls is not None and a.method_id == -2):
+                h = self.hooks.get("on_use")
+                if h:
+                    h(act, a, name)
                 return a.vars[name]
             a = a.parent
         if name in BUILTINS:
@@ -251,6 +254,7 @@ class Interp:
         self.steps += 1
         if self.steps > self.fuel:
             raise GirError("fuel exhausted")
+        act.cur = r
         h = self.hooks.get("on_stmt")
         if h:
             h(act, r)
@@ -478,6 +482,7 @@ class Interp:
         return None
 
     def op_forin_stmt(self, r, act):
+        act.cur = r
         seq = self.val(r.get("receiver"), act)
         if isinstance(seq, dict):
             seq = list(seq.keys())
@@ -498,6 +503,12 @@ class Interp:
             return self.exec_block(r.get("else_body"), act)
         return None
 
+    def mutated(self, name, act, r):
+        """a write into a container/object reached through variable `name` (lian treats it as a definition of that symbol)"""
+        h = self.hooks.get("on_def")
+        if h and isinstance(name, str) and name in act.vars:
+            h(act, r, name, None)
+
     # data
     def op_new_array(self, r, act):
         self.store(r.get("target"), [], act, r)
@@ -515,6 +526,7 @@ class Interp:
                 arr[idx] = src
         else:
             raise GirError("array_write on a non-array")
+        self.mutated(r.get("array"), act, r)
 
     def op_array_read(self, r, act):
         arr = self.val(r.get("array"), act)
@@ -525,6 +537,7 @@ class Interp:
 
     def op_array_append(self, r, act):
         self.val(r.get("array"), act).append(self.val(r.get("source"), act))
+        self.mutated(r.get("array"), act, r)
 
     def op_new_record(self, r, act):
         self.store(r.get("target"), {}, act, r)
@@ -532,6 +545,7 @@ class Interp:
     def op_record_write(self, r, act):
         rec = self.val(r.get("receiver_record"), act)
         rec[self.val(r.get("key"), act)] = self.val(r.get("value"), act)
+        self.mutated(r.get("receiver_record"), act, r)
 
     def op_field_write(self, r, act):
         o = self.val(r.get("receiver_object"), act)
@@ -542,6 +556,7 @@ class Interp:
             o.static[r["field"]] = v
         else:
             raise GirError(f"field_write on {type(o).__name__}")
+        self.mutated(r.get("receiver_object"), act, r)
 
     def op_field_read(self, r, act):
         o = self.val(r.get("receiver_object"), act)
